@@ -56,7 +56,7 @@ fn query_sm(sm: &SourceMap, sv: &SourceView) {
             poss.extend([(l, c), (l, c.wrapping_add(1)), (l, c.wrapping_sub(1)), (l.wrapping_add(1), c), (l.wrapping_add(1), 0), (l, u32::MAX)]);
         }
     }
-    for (l, c) in poss.iter().take(2000) {
+    for (l, c) in poss.iter().take(400) {
         if let Some(t) = sm.lookup_token(*l, *c) { let _ = (t.get_src(), t.get_src_col(), format!("{}", t)); }
         let _ = sm.get_original_function_name(*l, *c, "a", sv);
         let _ = sm.get_original_function_name(*l, *c, "é", sv);
@@ -74,6 +74,11 @@ fn query_sm(sm: &SourceMap, sv: &SourceView) {
 }
 
 fn query_all(d: &DecodedMap, sv: &SourceView, depth: usize) {
+    // every object's text renderings (Debug of the map reaches its tokens' tables and its embedded source views)
+    if depth == 0 {
+        let _ = format!("{:?}", d).len();
+        let _ = format!("{:#?}", d).len();
+    }
     match d {
         DecodedMap::Regular(sm) => query_sm(sm, sv),
         DecodedMap::Hermes(h) => {
